@@ -34,6 +34,10 @@ type c05Cmd struct {
 	Data     string `json:"data,omitempty"`
 	Cmid     uint64 `json:"cmid,omitempty"`
 	Lastseen string `json:"lastseen,omitempty"`
+	// Aged: the snapshot is taken "20 minutes later" (compaction time = now + 20 min).  With the configured
+	// expiration of 30 minutes nothing is old enough to be folded then; a node that forgot its configuration
+	// (10 minutes by default) would fold -- and drop the output of -- everything.
+	Aged bool `json:"aged,omitempty"`
 }
 
 type c05Msg struct {
@@ -108,7 +112,12 @@ func TestVerifC05Node(t *testing.T) {
 		case "snapshot":
 			time.Sleep(2 * time.Millisecond)
 			resp := c05Resp{Code: 200}
-			if err := n.raft.Snapshot().Error(); err != nil {
+			if c.Aged {
+				*canaryCompactionStart = time.Now().Add(20 * time.Minute).UnixNano()
+			}
+			err := n.raft.Snapshot().Error()
+			*canaryCompactionStart = 0
+			if err != nil {
 				resp.Code, resp.Err = -1, err.Error()
 			}
 			reply(resp)
@@ -116,7 +125,11 @@ func TestVerifC05Node(t *testing.T) {
 			// the line is posted after FSM.Snapshot returned and before Persist runs
 			time.Sleep(2 * time.Millisecond)
 			var pr vResp
+			if c.Aged {
+				*canaryCompactionStart = time.Now().Add(20 * time.Minute).UnixNano()
+			}
 			err := n.snapshotWith(func() { pr = n.post(s, c.Data, c.Cmid) })
+			*canaryCompactionStart = 0
 			resp := c05Resp{Code: pr.Code, Err: pr.Body}
 			if err != nil {
 				resp.Code, resp.Err = -1, "snapshot: "+err.Error()
@@ -289,7 +302,7 @@ func TestVerifC05(t *testing.T) {
 			must(c05Cmd{Op: "post", Sid: B.Sid, Auth: B.Auth, Num: B.Num, Data: l, Cmid: next()})
 		}
 		aOnT := false
-		var toggles []string // acknowledged JOIN/PART #t of A, in order: B must see exactly these announcements
+		var toggles []string            // acknowledged JOIN/PART #t of A, in order: B must see exactly these announcements
 		V := must(c05Cmd{Op: "create"}) // sentinel: only posts the markers the streams are read up to
 		for _, l := range []string{"NICK v", "USER v 0 * :v", "JOIN #c"} {
 			must(c05Cmd{Op: "post", Sid: V.Sid, Auth: V.Auth, Num: V.Num, Data: l, Cmid: next()})
@@ -418,7 +431,7 @@ func TestVerifC05(t *testing.T) {
 				}
 			case "snapshot":
 				res.Snapshots++
-				if r := must(c05Cmd{Op: "snapshot"}); r.Code != 200 {
+				if r := must(c05Cmd{Op: "snapshot", Aged: true}); r.Code != 200 {
 					herr(fmt.Errorf("snapshot: %s", r.Err))
 				}
 			case "snap+toggleA":
@@ -428,7 +441,7 @@ func TestVerifC05(t *testing.T) {
 					line = "PART #t :toggle"
 				}
 				tp := &c05Posted{line: line, cmid: next()}
-				r := must(c05Cmd{Op: "snappost", Sid: A.Sid, Auth: A.Auth, Num: A.Num, Data: line, Cmid: tp.cmid})
+				r := must(c05Cmd{Op: "snappost", Sid: A.Sid, Auth: A.Auth, Num: A.Num, Data: line, Cmid: tp.cmid, Aged: true})
 				if r.Code == -1 {
 					herr(fmt.Errorf("%s", r.Err))
 				} else if r.Code != 200 {
